@@ -644,16 +644,18 @@ pub fn sym(s: &str) -> ScVal {
 
 /// Does `ev` (already known to come from the right contract and have the right name)
 /// carry every value in `must` (multiset inclusion over flattened leaves)?
+/// The expected values must occur among the event's leaf values (topics, then data, flattened) in
+/// the expected order, i.e. as a subsequence: extra fields are tolerated, but two fields that swap
+/// places (sender and recipient, previous and new owner) are not.
 pub fn carries(ev: &Ev, must: &[ScVal]) -> bool {
-    let mut leaves = ev.leaves();
+    let leaves = ev.leaves();
+    let mut at = 0usize;
     for m in must {
         let mut flat = vec![];
         flatten(m, &mut flat);
         for f in flat {
-            match leaves.iter().position(|l| *l == f) {
-                Some(i) => {
-                    leaves.swap_remove(i);
-                }
+            match leaves[at..].iter().position(|l| *l == f) {
+                Some(i) => at += i + 1,
                 None => return false,
             }
         }
